@@ -174,12 +174,12 @@ type shape struct {
 	fixKey    bool
 	labels    []string
 	fixLabels bool
-	// with the tagged-union exclusion a case is either a "tagged case" (its struct types occur only as
-	// the variants of ONE tagged-union type, used wherever a tagged union is drawn) or has no tagged
-	// union at all; no plain struct type or constructed struct then carries the tag field.
+	// with the tagged-union exclusion (a struct type whose tag field is typed /name conforms to every
+	// tagged union over that field) no plain struct type and no constructed struct carries the tag
+	// field: a case is either a "tagged case" (struct types occur only as variants of tagged unions) or
+	// has no tagged union at all.
 	fixTagged  bool
 	taggedCase bool
-	tagged     Ty
 }
 
 func genLeaf(t *rapid.T) Ty {
@@ -247,7 +247,7 @@ func (s *shape) genTy(t *rapid.T, depth int) Ty {
 			if depth < 2 {
 				return genLeaf(t)
 			}
-			return s.tagged
+			return s.genTagged(t)
 		}
 		return s.genStruct(t, depth-1, dot)
 	default:
@@ -255,7 +255,7 @@ func (s *shape) genTy(t *rapid.T, depth int) Ty {
 			if !s.taggedCase || depth < 2 {
 				return genLeaf(t)
 			}
-			return s.tagged
+			return s.genTagged(t)
 		}
 		if depth < 2 || (s.fixLabels && !hasLabel(s.labels, tagField)) {
 			return s.genStruct(t, depth-1, dot)
@@ -264,17 +264,23 @@ func (s *shape) genTy(t *rapid.T, depth int) Ty {
 	}
 }
 
-// genTagged draws a tagged-union type (the case's only one while the tagged-union exclusion is active).
+// genTagged draws a tagged-union type.
 func (s *shape) genTagged(t *rapid.T) Ty {
-	if s.fixTagged {
-		return s.tagged
-	}
 	n := rapid.IntRange(1, 2).Draw(t, "variants")
 	res := Ty{K: "tagged", Name: tagField, Dot: rapid.Bool().Draw(t, "dot")}
 	for i := 0; i < n; i++ {
 		res.Fields = append(res.Fields, Field{Label: variantTags[i], T: s.genVariant(t, rapid.Bool().Draw(t, "vdot"))})
 	}
 	return res
+}
+
+func hasField(ty Ty, label string) bool {
+	for _, f := range ty.Fields {
+		if f.Label == label {
+			return true
+		}
+	}
+	return false
 }
 
 func hasLabel(ls []string, l string) bool {
@@ -434,6 +440,16 @@ func (s *shape) mutateTy(t *rapid.T, ty Ty) Ty {
 		case "struct":
 			res := ty
 			res.Fields = append([]Field{}, ty.Fields...)
+			if !s.fixTagged && hasField(ty, tagField) && rapid.Bool().Draw(t, "to-tagged") {
+				// narrow a struct that carries the tag field to a tagged union with one variant
+				variant := Ty{K: "struct", Dot: ty.Dot}
+				for _, f := range ty.Fields {
+					if f.Label != tagField {
+						variant.Fields = append(variant.Fields, f)
+					}
+				}
+				return Ty{K: "tagged", Name: tagField, Dot: dot, Fields: []Field{{Label: variantTags[0], T: variant}}}
+			}
 			if !s.fixLabels {
 				switch rapid.IntRange(0, 3).Draw(t, "width") {
 				case 0:
@@ -469,9 +485,6 @@ func (s *shape) mutateTy(t *rapid.T, ty Ty) Ty {
 			}
 			return res
 		case "tagged":
-			if s.fixTagged {
-				return tyAny
-			}
 			res := ty
 			res.Fields = append([]Field{}, ty.Fields...)
 			if len(res.Fields) > 1 && rapid.Bool().Draw(t, "dropvariant") {
